@@ -97,7 +97,42 @@ FLOATS = [
     ("wdt_w2t_eps_bits", WDT + "lib.rs", r"fn\s+world_to_tile.*?const\s+TILE_EPSILON\s*:\s*f32\s*=\s*" + FLT, 1.0e-4),
 ]
 
+SEC = MPQ + "security.rs"
 EXTRA = [
+    # default SecurityLimits (first `impl Default for SecurityLimits`)
+    ("sec_max_ratio", SEC, r"impl\s+Default\s+for\s+SecurityLimits.*?max_compression_ratio\s*:\s*" + NUM, 1000),
+    ("sec_max_decompressed_mib", SEC, r"impl\s+Default\s+for\s+SecurityLimits.*?max_decompressed_size\s*:\s*" + NUM + r"\s*\*\s*1024\s*\*\s*1024", 100),
+    ("sec_max_session_mib", SEC, r"impl\s+Default\s+for\s+SecurityLimits.*?max_session_decompressed\s*:\s*" + NUM + r"\s*\*\s*1024\s*\*\s*1024", 1024),
+    # adaptive limit bands and multipliers (calculate_limit)
+    ("ad_band1", SEC, r"0\s*\.\.=\s*" + NUM + r"\s*=>\s*self\.base_limit\s*\*", 512),
+    ("ad_mul1", SEC, r"0\s*\.\.=\s*[0-9]+\s*=>\s*self\.base_limit\s*\*\s*" + NUM, 10),
+    ("ad_band2", SEC, r"513\s*\.\.=\s*" + NUM, 4096),
+    ("ad_mul2", SEC, r"513\s*\.\.=\s*[0-9]+\s*=>\s*self\.base_limit\s*\*\s*" + NUM, 5),
+    ("ad_band3", SEC, r"4097\s*\.\.=\s*" + NUM, 65536),
+    ("ad_mul3", SEC, r"4097\s*\.\.=\s*[0-9]+\s*=>\s*self\.base_limit\s*\*\s*" + NUM, 2),
+    ("ad_band4", SEC, r"65537\s*\.\.=\s*" + NUM, 1048576),
+    ("ad_div5", SEC, r"_\s*=>\s*self\.base_limit\s*/\s*" + NUM, 2),
+    ("ad_zlib_mul", SEC, r"0x02\s*=>\s*size_based_limit\s*\*\s*" + NUM, 2),
+    ("ad_bzip2_mul", SEC, r"0x10\s*=>\s*size_based_limit\s*\*\s*" + NUM, 3),
+    ("ad_lzma_mul", SEC, r"0x12\s*=>\s*size_based_limit\s*\*\s*" + NUM, 4),
+    ("ad_sparse_div", SEC, r"0x20\s*=>\s*size_based_limit\s*/\s*" + NUM, 2),
+    ("ad_huffman_div", SEC, r"0x01\s*=>\s*size_based_limit\s*/\s*" + NUM, 2),
+    ("ad_adpcm_mul", SEC, r"0x40\s*\|\s*0x80\s*=>\s*size_based_limit\s*\*\s*" + NUM, 2),
+    ("ad_clamp_lo", SEC, r"method_based_limit\.clamp\(\s*" + NUM, 50),
+    ("ad_clamp_hi", SEC, r"method_based_limit\.clamp\(\s*[0-9_]+\s*,\s*" + NUM, 50000),
+    ("sec_tiny_c", SEC, r"compressed_size\s*<\s*" + NUM + r"\s*&&\s*decompressed_size\s*>", 100),
+    ("sec_tiny_n_mib", SEC, r"compressed_size\s*<\s*[0-9]+\s*&&\s*decompressed_size\s*>\s*" + NUM + r"\s*\*\s*1024\s*\*\s*1024", 10),
+    ("sec_multi_threshold", SEC, r"if\s+compression_method\s*>\s*" + NUM, 0x80),
+    ("sec_result_tolerance", MPQ + "compression/decompress.rs", r"result\.len\(\)\s+as\s+u64,\s*" + NUM, 10),
+    ("cm_huffman", MPQ + "compression/methods.rs", r"HUFFMAN\s*:\s*u8\s*=\s*" + NUM, 1),
+    ("cm_zlib", MPQ + "compression/methods.rs", r"ZLIB\s*:\s*u8\s*=\s*" + NUM, 2),
+    ("cm_implode", MPQ + "compression/methods.rs", r"IMPLODE\s*:\s*u8\s*=\s*" + NUM, 4),
+    ("cm_pkware", MPQ + "compression/methods.rs", r"PKWARE\s*:\s*u8\s*=\s*" + NUM, 8),
+    ("cm_bzip2", MPQ + "compression/methods.rs", r"BZIP2\s*:\s*u8\s*=\s*" + NUM, 0x10),
+    ("cm_sparse", MPQ + "compression/methods.rs", r"SPARSE\s*:\s*u8\s*=\s*" + NUM, 0x20),
+    ("cm_adpcm_mono", MPQ + "compression/methods.rs", r"ADPCM_MONO\s*:\s*u8\s*=\s*" + NUM, 0x40),
+    ("cm_adpcm_stereo", MPQ + "compression/methods.rs", r"ADPCM_STEREO\s*:\s*u8\s*=\s*" + NUM, 0x80),
+    ("cm_lzma", MPQ + "compression/methods.rs", r"LZMA\s*:\s*u8\s*=\s*" + NUM, 0x12),
     ("wdt_w2t_clamp", WDT + "lib.rs", r"tile_x\.min\(\s*" + NUM + r"\s*\)", 63),
     ("wdt_version", WDT + "chunks/mod.rs", r"WDT_VERSION\s*:\s*u32\s*=\s*" + NUM, 18),
     ("wdt_map_size", WDT + "chunks/mod.rs", r"WDT_MAP_SIZE\s*:\s*usize\s*=\s*" + NUM, 64),
